@@ -359,3 +359,55 @@ func HashBytes(b []byte) string {
 	h := sha256.Sum256(b)
 	return hex.EncodeToString(h[:8])
 }
+
+// ---- stall monitor
+
+// A few of the systems under test keep real-time timers (pending key setups expire after 30 s, error pings have
+// cooldowns of seconds). The workloads never wait that long; but a process or VM that is frozen for seconds
+// (observed on loaded sandboxes) makes those timers fire in the middle of a schedule that takes a millisecond.
+// The monitor is a goroutine that sleeps 50 ms at a time and records every gap above 1.5 s; workloads whose
+// verdict depends on "no timer fired meanwhile" ask StalledSince and discard (and count) the affected case.
+var (
+	stallMu    sync.Mutex
+	stallTimes []time.Time
+	stallOnce  sync.Once
+)
+
+// StartStallMonitor starts the monitor (idempotent).
+func StartStallMonitor() {
+	stallOnce.Do(func() {
+		go func() {
+			last := time.Now()
+			for {
+				time.Sleep(50 * time.Millisecond)
+				now := time.Now()
+				if now.Sub(last) > 1500*time.Millisecond {
+					stallMu.Lock()
+					stallTimes = append(stallTimes, now)
+					stallMu.Unlock()
+				}
+				last = now
+			}
+		}()
+	})
+}
+
+// StalledSince reports whether a stall was recorded after t.
+func StalledSince(t time.Time) bool {
+	StartStallMonitor()
+	stallMu.Lock()
+	defer stallMu.Unlock()
+	for _, s := range stallTimes {
+		if s.After(t) {
+			return true
+		}
+	}
+	return false
+}
+
+// StallCount returns the number of stalls recorded so far.
+func StallCount() int {
+	stallMu.Lock()
+	defer stallMu.Unlock()
+	return len(stallTimes)
+}
